@@ -1,5 +1,6 @@
 import O4.Lemmas.HandshakeClient
 import O4.Lemmas.Obfs4Ref
+import O4.Lemmas.Symbolic
 /-!
 # C02 — the obfs4 client only completes with the holder of the bridge identity key
 
@@ -11,8 +12,13 @@ agreement of a genuine pair for every chunking (`matching_pair_agrees`, `any_chu
 rejection claims in **reduction form**: either the modified / foreign response is rejected, or
 two explicit distinct strings collide under the keyed hash (resp. an explicit string carries a
 valid tag the server never computed).  No "injective MAC" hypothesis appears anywhere.
-That nobody can produce the AUTH tag without `b` or `x` (ntor authentication, gap-DH) is assumed,
-not proved (`impostor_needs_secret` of DESIGN §4 is not attempted).
+That nobody can produce the AUTH tag without `b` or `x` (ntor authentication) is proved in a
+**symbolic (Dolev–Yao) model** — last section, `impostor_needs_secret`, model
+`O4.Model.Symbolic`, lemmas `O4.Lemmas.Symbolic`: perfect keyed hash, generic group with the
+Diffie–Hellman equation, an attacker who sees the public bridge line, the client's `X`, and the
+full transcripts and session keys of arbitrarily many sessions of the honest bridge on client keys
+of its choice.  Computational security (gap-DH, HMAC as a PRF) stays assumed; the symbolic theorem
+rests on the standard abstraction "the attacker computes only what `Derivable` computes".
 -/
 namespace C02
 open O4 O4.Handshake O4.HsClient O4.Consts.Obfs4 O4.Consts.Ntor
@@ -748,5 +754,213 @@ theorem fresh_keys_sessions (nodeID idPub : Bytes) (h1 h2 : Int) (tape : Bytes) 
   obtain ⟨pre2, blk2, post2, e2, l2, k2⟩ := key h2 s1.rest s2 hs2
   exact ⟨pre1 ++ blk1 ++ post1, pre2 ++ blk2 ++ post2, pre1, blk1, post1, pre2, blk2, post2,
     by rw [e1, e2]; simp, rfl, rfl, l1, l2, k1, k2⟩
+
+/-! ## `impostor_needs_secret` — symbolic (Dolev–Yao) model
+
+`accept_iff` says what the client compares: the received AUTH field against the AUTH **it**
+computes from `(x, Y, B, NODEID)`.  This section shows, in the term model of `O4.Model.Symbolic`,
+that nobody without `b` (or `x`) can produce that value, whatever `Y` it makes the client use.
+
+*Model.*  Terms: scalars, group elements `gexp s` in normal form (the DH equation holds by
+computation, `dh_commutes`), public constants, `pair` (concatenation of fixed-width fields),
+`hmac` as a free constructor, stuck exponentiation of non-group values.  `Derivable K t`: the
+attacker knowing `K` computes `t` by pairing, projecting, `hmac` of derivable key and message, and
+exponentiation by a scalar it can derive — no inversion of `hmac`, no discrete logarithm.
+The protocol terms are built field by field like `Ntor.ntorCommon`, and
+`sym_terms_denote_code` proves that the symbolic `clientAuth Y` denotes exactly the bytes
+`Ntor.clientHandshake` returns (for every choice of primitives, no hypothesis).
+
+*Knowledge* `K0 srvIn`: all public constants (NODEID, PROTOID, the labels, arbitrary data), the
+base point, `B = g^b`, the observed `X = g^x`, the attacker's own scalars `e i`, and for EVERY
+session `j` of the honest bridge — which answered the client key `srvIn j`, an arbitrary term
+chosen by the attacker, all `srvIn` quantified — the server key `Y_j = g^(y j)`, the AUTH field
+`srvAuth (srvIn j) j` and even the KEY_SEED `srvKeySeed (srvIn j) j`.  "The attacker sees honest
+AUTH values of other sessions" means exactly: these `hmac` terms are members of `K0`; they are
+tags over other `secret_input`s (the transcript part contains the session's own `X` and `Y_j`)
+and cannot be opened.  Every OTHER client, honest or not, is played by the attacker (it may even
+know their ephemeral secrets: an honest client reveals nothing but its `g^(x')`), so their
+sessions with the bridge are among the `srvIn j`.  Not in `K0`: `b`, `x`, any `y j`.
+
+*What the abstraction assumes* (not proved): the byte-level attacker can compute only
+denotations of derivable terms — HMAC-SHA256 behaves as a free function, X25519 as a generic
+group in which only the DH equation holds (Elligator decoding, cofactor, clamping abstracted
+away), scalars are not computed from other data, fields are parsed unambiguously.
+-/
+section Symbolic
+open O4.Sym O4.Sym.Term O4.SymLemmas
+
+/-- **the Diffie–Hellman equation** holds in the normal form:
+    `exp (exp (g^s) a) c = exp (exp (g^s) c) a` for every group element and all scalars -/
+theorem dh_commutes (s : List Sym.Name) (a c : Sym.Name) :
+    exp (exp (.gexp s) a) c = exp (exp (.gexp s) c) a := exp_comm s a c
+
+/-- **the honest pair agrees** (symbolic counterpart of `ntor_agree`): session `j` of the bridge
+    answering the client's `X` computes the AUTH and KEY_SEED the client computes for `Y_j` -/
+theorem honest_pair_agrees_sym (j : Nat) :
+    srvAuth (pub .x) j = clientAuth (pub (.y j)) ∧ srvKeySeed (pub .x) j = clientKeySeed (pub (.y j)) :=
+  ⟨rfl, rfl⟩
+
+/-- the conditions on an attacker's knowledge `K` under which the general theorem holds:
+    no concatenations stored as such (store the fields), no secret scalar, and no group element
+    with two secret scalars in the exponent (no `g^(bx)`, `g^(xy)`, …) -/
+structure NoSecretLeak (K : Term → Prop) : Prop where
+  no_pair : ∀ a c, ¬ K (.pair a c)
+  no_secret_scalar : ∀ n, K (.nm n) → n.secret = false
+  one_secret : ∀ s, K (.gexp s) → secretCount s ≤ 1
+
+/-- **`impostor_needs_secret_general`** — for ANY knowledge set meeting `NoSecretLeak` and ANY
+    term `Y` the client is made to use as server public key: the AUTH value the client would
+    accept is derivable only if that very AUTH term, or its inner `verify` tag, was handed to the
+    attacker as such (by a party that could compute it).  Reason: every derivable group element
+    has at most one secret scalar in its exponent (`synth_gexp_count`), `exp(B, x) = g^(bx)` has
+    two, and a derivable `hmac` that is not a member of `K` has a derivable message. -/
+theorem impostor_needs_secret_general (K : Term → Prop) (hK : NoSecretLeak K) (Y : Term)
+    (h : Derivable K (clientAuth Y)) :
+    K (clientAuth Y) ∨
+    K (.hmac (.const .tVerify) (exp Y .x ∥ exp (pub .b) .x ∥ suffix (.const .nodeID) (pub .b) (pub .x) Y)) :=
+  nested_mac_secret hK.no_pair hK.no_secret_scalar hK.one_secret _ _ _ _ _ [.b, .x] (by decide) h
+
+theorem K0_noSecretLeak (srvIn : Nat → Term) : NoSecretLeak (K0 srvIn) :=
+  ⟨K0_no_pair srvIn, K0_nm srvIn, K0_gexp srvIn⟩
+
+/-- **agreement form.**  Whatever client keys `srvIn` the honest bridge was made to answer, and
+    whatever term `Y` the client is made to use: if the attacker can derive the AUTH value the
+    client accepts, then the **holder of `b` itself** ran a session on exactly this client's `X`
+    and `Y` is exactly that session's server key (the attacker merely relayed the genuine
+    exchange, and the client completes with the genuine bridge). -/
+theorem accept_implies_bridge_answered (srvIn : Nat → Term) (Y : Term)
+    (h : Derivable (K0 srvIn) (clientAuth Y)) : ∃ j, srvIn j = pub .x ∧ Y = pub (.y j) := by
+  rcases impostor_needs_secret_general _ (K0_noSecretLeak srvIn) Y h with hk | hk
+  · rcases K0_hmac srvIn _ _ (clientAuth_eq Y ▸ hk) with ⟨j, hj⟩ | ⟨j, hj⟩
+    · rw [srvAuth_eq] at hj
+      simp only [suffix, Term.hmac.injEq, Term.pair.injEq] at hj
+      exact ⟨j, hj.2.2.1.2.2.1.symm, hj.2.2.1.2.2.2.1⟩
+    · rw [srvKeySeed_eq] at hj
+      simp only [Term.hmac.injEq, Term.const.injEq, reduceCtorEq, false_and] at hj
+  · rcases K0_hmac srvIn _ _ hk with ⟨j, hj⟩ | ⟨j, hj⟩
+    · rw [srvAuth_eq] at hj
+      simp only [Term.hmac.injEq, Term.const.injEq, reduceCtorEq, false_and] at hj
+    · rw [srvKeySeed_eq] at hj
+      simp only [Term.hmac.injEq, Term.const.injEq, reduceCtorEq, false_and] at hj
+
+/-- **`impostor_needs_secret`** — the attacker knows the whole public bridge line (`NODEID`,
+    `B`), every constant, the client's `X`, its own scalars, and the complete transcripts (server
+    key, AUTH) **and session keys** of arbitrarily many sessions of the honest bridge with OTHER
+    client keys (`srvIn j ≠ X`, otherwise arbitrary, attacker-chosen) — but neither `b` nor `x`.
+    Then for EVERY term `Y` it makes the client use as server public key (its own `g^e`, `X^e`,
+    `B`, an honest session's `Y_j`, a non-group value, anything) the AUTH value this client
+    accepts is NOT derivable: the handshake fails. -/
+theorem impostor_needs_secret (srvIn : Nat → Term) (hother : ∀ j, srvIn j ≠ pub .x) (Y : Term) :
+    ¬ Derivable (K0 srvIn) (clientAuth Y) := fun h =>
+  let ⟨j, hj, _⟩ := accept_implies_bridge_answered srvIn Y h
+  hother j hj
+
+/-- even when the bridge did answer this client's `X` (the attacker forwarded it), every server
+    key other than the bridge's own answers is rejected — in particular every key the attacker
+    generates from what it knows without using an honest `Y_j` as such -/
+theorem impostor_own_key_rejected (srvIn : Nat → Term) (Y : Term) (hY : ∀ j, Y ≠ pub (.y j)) :
+    ¬ Derivable (K0 srvIn) (clientAuth Y) := fun h =>
+  let ⟨j, _, hj⟩ := accept_implies_bridge_answered srvIn Y h
+  hY j hj
+
+/-- instances: `Y = g^e` for an attacker scalar, `Y = X^e`, `Y = B`, `Y = g` -/
+example (srvIn : Nat → Term) (i : Nat) : ¬ Derivable (K0 srvIn) (clientAuth (pub (.e i))) :=
+  impostor_own_key_rejected srvIn _ (fun j h => by cases h)
+example (srvIn : Nat → Term) (i : Nat) : ¬ Derivable (K0 srvIn) (clientAuth (exp (pub .x) (.e i))) :=
+  impostor_own_key_rejected srvIn _ (fun j h => by cases h)
+example (srvIn : Nat → Term) : ¬ Derivable (K0 srvIn) (clientAuth (pub .b)) :=
+  impostor_own_key_rejected srvIn _ (fun j h => by cases h)
+
+/-- the attacker does derive such server keys (the quantification over `Y` is not vacuous) … -/
+example (srvIn : Nat → Term) : Derivable (K0 srvIn) (exp (pub .x) (.e 7)) :=
+  .exp (.ax (Or.inr (Or.inr (Or.inr (Or.inl rfl))))) (.ax (Or.inr (Or.inr (Or.inr (Or.inr (Or.inl ⟨7, rfl⟩))))))
+/-- … and the public-keyed mark `HMAC(B ‖ NODEID, Y)` of the obfs4 layer (why `M_S`/`MAC_S` do
+    not authenticate the bridge) -/
+example (srvIn : Nat → Term) : Derivable (K0 srvIn) (.hmac (pub .b ∥ .const .nodeID) (pub (.e 0))) :=
+  .hmac (.pair (.ax (Or.inr (Or.inr (Or.inl rfl)))) (.ax (Or.inl ⟨_, rfl⟩)))
+    (.exp (t := g) (.ax (Or.inr (Or.inl rfl))) (.ax (Or.inr (Or.inr (Or.inr (Or.inr (Or.inl ⟨0, rfl⟩)))))))
+
+/-- a concrete `srvIn` meeting `hother`: the bridge served the attacker's own client keys
+    `g^(e j)` (even sessions) and garbage (odd sessions) -/
+example : ∀ j, (fun j => if j % 2 = 0 then pub (.e j) else Term.const (.data j)) j ≠ pub .x := by
+  intro j
+  by_cases h : j % 2 = 0 <;> simp [h, pub]
+
+/-- a concrete FINITE knowledge set meeting `NoSecretLeak`: the bridge line, `X`, two attacker
+    scalars, the transcript of one honest session on the attacker's key `g^(e 0)` -/
+def toyKnowledge : List Term :=
+  [g, pub .b, pub .x, .const .nodeID, .const .protoID, .const .tMac, .const .tKey, .const .tVerify,
+   .const .server, .nm (.e 0), .nm (.e 1), pub (.y 0), srvAuth (pub (.e 0)) 0, srvKeySeed (pub (.e 0)) 0]
+
+example : NoSecretLeak (· ∈ toyKnowledge) where
+  no_pair a c h := by simp [toyKnowledge, g, pub, srvAuth_eq, srvKeySeed_eq] at h
+  no_secret_scalar n h := by
+    simp [toyKnowledge, g, pub, srvAuth_eq, srvKeySeed_eq] at h
+    rcases h with rfl | rfl <;> rfl
+  one_secret s h := by
+    simp [toyKnowledge, g, pub, srvAuth_eq, srvKeySeed_eq] at h
+    rcases h with rfl | rfl | rfl | rfl <;> decide
+
+/-! ### non-vacuity: with a secret the value IS derivable -/
+
+/-- **`holder_can_answer`** — add `b` to the same knowledge and the AUTH value for the attacker's
+    own server key `Y = g^e` becomes derivable (`exp(Y, x) = exp(X, e)` and `exp(B, x) = exp(X, b)`
+    by the DH equation): the secrecy of `b` is what `impostor_needs_secret` rests on. -/
+theorem holder_can_answer (srvIn : Nat → Term) (i : Nat) :
+    Derivable (withTerm (K0 srvIn) (.nm .b)) (clientAuth (pub (.e i))) := by
+  have up : ∀ t, K0 srvIn t → Derivable (withTerm (K0 srvIn) (.nm .b)) t := fun t h => .ax (Or.inl h)
+  have hc : ∀ c, Derivable (withTerm (K0 srvIn) (.nm .b)) (.const c) := fun c => up _ (Or.inl ⟨c, rfl⟩)
+  have hB := up (pub .b) (Or.inr (Or.inr (Or.inl rfl)))
+  have hX := up (pub .x) (Or.inr (Or.inr (Or.inr (Or.inl rfl))))
+  have he := up (.nm (.e i)) (Or.inr (Or.inr (Or.inr (Or.inr (Or.inl ⟨i, rfl⟩)))))
+  have hb : Derivable (withTerm (K0 srvIn) (.nm .b)) (.nm .b) := .ax (Or.inr rfl)
+  have hY : Derivable (withTerm (K0 srvIn) (.nm .b)) (pub (.e i)) :=
+    .exp (t := g) (up g (Or.inr (Or.inl rfl))) he
+  -- the two DH values, computed from X with the scalars the holder knows
+  have h1 : Derivable (withTerm (K0 srvIn) (.nm .b)) (exp (pub (.e i)) .x) := .exp (t := pub .x) hX he
+  have h2 : Derivable (withTerm (K0 srvIn) (.nm .b)) (exp (pub .b) .x) := .exp (t := pub .x) hX hb
+  have hsuf : Derivable (withTerm (K0 srvIn) (.nm .b)) (suffix (.const .nodeID) (pub .b) (pub .x) (pub (.e i))) :=
+    .pair hB (.pair hB (.pair hX (.pair hY (.pair (hc _) (hc _)))))
+  exact .hmac (hc _) (.pair (.hmac (hc _) (.pair h1 (.pair h2 hsuf))) (.pair hsuf (hc _)))
+
+/-- the other secret matters as well: with the client's ephemeral `x` the value is derivable for
+    every derivable `Y` (so "neither `b` nor `x`" cannot be weakened) -/
+theorem ephemeral_leak_breaks (srvIn : Nat → Term) (Y : Term)
+    (hYd : Derivable (withTerm (K0 srvIn) (.nm .x)) Y) :
+    Derivable (withTerm (K0 srvIn) (.nm .x)) (clientAuth Y) := by
+  have up : ∀ t, K0 srvIn t → Derivable (withTerm (K0 srvIn) (.nm .x)) t := fun t h => .ax (Or.inl h)
+  have hc : ∀ c, Derivable (withTerm (K0 srvIn) (.nm .x)) (.const c) := fun c => up _ (Or.inl ⟨c, rfl⟩)
+  have hB := up (pub .b) (Or.inr (Or.inr (Or.inl rfl)))
+  have hX := up (pub .x) (Or.inr (Or.inr (Or.inr (Or.inl rfl))))
+  have hx : Derivable (withTerm (K0 srvIn) (.nm .x)) (.nm .x) := .ax (Or.inr rfl)
+  have hsuf : Derivable (withTerm (K0 srvIn) (.nm .x)) (suffix (.const .nodeID) (pub .b) (pub .x) Y) :=
+    .pair hB (.pair hB (.pair hX (.pair hYd (.pair (hc _) (hc _)))))
+  exact .hmac (hc _) (.pair (.hmac (hc _) (.pair (.exp hYd hx) (.pair (.exp hB hx) hsuf))) (.pair hsuf (hc _)))
+
+/-! ### the terms denote what the code computes -/
+
+/-- **bytes ↔ terms, client side.**  For every choice of primitives `P`, valuation `ρ` of the
+    scalars, base point, node ID and data, and every server key term `Y` the attacker can derive
+    from `K0`: the symbolic `clientAuth Y` / `clientKeySeed Y` denote exactly the AUTH / KEY_SEED
+    bytes `Ntor.clientHandshake` returns for the client's private key `ρ x`, its public key, the
+    bytes of `Y`, the bridge public key and the node ID — the value `accept_iff` says the received
+    AUTH field is compared with.  What remains assumed is only that the byte-level attacker can
+    compute nothing but denotations of derivable terms. -/
+theorem sym_terms_denote_code (P : Ntor.Prims) (ρ : Sym.Name → Bytes) (base id : Bytes) (dat : Nat → Bytes)
+    (srvIn : Nat → Term) (Y : Term) (hY : Derivable (K0 srvIn) Y) :
+    interp P ρ base id dat (clientAuth Y) =
+      (Ntor.clientHandshake P (ρ .x) (interp P ρ base id dat (pub .x)) (interp P ρ base id dat Y)
+        (interp P ρ base id dat (pub .b)) id).2.2 ∧
+    interp P ρ base id dat (clientKeySeed Y) =
+      (Ntor.clientHandshake P (ρ .x) (interp P ρ base id dat (pub .x)) (interp P ρ base id dat Y)
+        (interp P ρ base id dat (pub .b)) id).2.1 :=
+  interp_clientAuth P ρ base id dat Y (fun s hs => K0_derivable_sorted srvIn s (hs ▸ hY))
+
+/-- the public keys denote the ladder on the base point: `⟦X⟧ = ScalarMult(x, base)` -/
+example (P : Ntor.Prims) (ρ : Sym.Name → Bytes) (base id : Bytes) (dat : Nat → Bytes) :
+    interp P ρ base id dat (pub .x) = P.x25519 (ρ .x) base ∧
+    interp P ρ base id dat (pub .b) = P.x25519 (ρ .b) base := ⟨rfl, rfl⟩
+
+end Symbolic
 
 end C02
